@@ -591,6 +591,128 @@ func byteRanges(r *rng.R, rc *Recipe) {
 		"byte-range:mixed", "byte-range:map-only", "byte-range:partial"}[shape])
 }
 
+// absurdRangeSpecs: byte ranges whose declared length / offset no resource has. The numbers come from the server
+// (the playlist decoder accepts every uint64), so the client must neither size anything by them nor trip over
+// offset + length wrapping around 2^64: it sends the Range header it computes and plays what the server returns,
+// or ends with an error.
+//
+//	whole    the unchanged client's request covers the whole resource (the stub answers 206 with all of it): a valid stream
+//	partial  the request starts inside the resource: the payload loses its first bytes (a deviation, model-compared)
+//	refused  first byte past the end, or last byte before the first after the wrap: the stub answers 416
+//	         (oracle-only: the model has no failed segment download)
+var absurdRangeSpecs = []struct{ spec, effect string }{
+	{"lit:4611686018427387904", "whole"},      // 2^62
+	{"lit:4611686018427387904@0", "whole"},    //
+	{"lit:9223372036854775807", "whole"},      // 2^63-1
+	{"lit:9223372036854775807@0", "whole"},    //
+	{"lit:9223372036854775808", "whole"},      // 2^63: negative as an int64 / int
+	{"lit:9223372036854775808@0", "whole"},    //
+	{"lit:18446744073709551615", "whole"},     // 2^64-1
+	{"lit:18446744073709551615@0", "whole"},   //
+	{"lit:18446744073709551615@1", "partial"}, // offset + length = 2^64 exactly: last byte 2^64-1
+	{"lit:9223372036854775808@8", "partial"},
+	{"lit:4611686018427387904@1", "partial"},
+	{"lit:0", "whole"},                                           // length 0: the last byte the client computes is 0 - 1 = 2^64-1
+	{"lit:0@0", "whole"},                                         //
+	{"lit:18446744073709551615@2", "refused"},                    // wraps: last byte 0
+	{"lit:18446744073709551615@8", "refused"},                    // wraps: last byte 6
+	{"lit:9223372036854775808@9223372036854775808", "refused"},   // 2^63 + 2^63 = 2^64: last byte 2^64-1, first 2^63
+	{"lit:9223372036854775807@9223372036854775808", "refused"},   // no wrap, far past the end
+	{"lit:18446744073709551615@18446744073709551615", "refused"}, // wraps: last byte 2^64-3
+	{"lit:8@18446744073709551615", "refused"},                    // a sane length at an absurd offset: wraps to last byte 6
+	{"lit:1@9223372036854775808", "refused"},
+	{"lit:4611686018427387904@4611686018427387904", "refused"},
+	{"lit:0@8", "refused"}, // last byte 7 before first byte 8
+}
+
+// setAbsurdRange lists one segment (seg >= 0) or the init (seg < 0, fMP4) of stream si with an absurd byte range.
+func setAbsurdRange(rc *Recipe, si, seg int, k int) {
+	a := absurdRangeSpecs[k%len(absurdRangeSpecs)]
+	s := &rc.Streams[si]
+	what := "segment"
+	if seg < 0 {
+		s.MapRange = a.spec
+		what = "init"
+	} else {
+		s.Segments[seg].Range = a.spec
+	}
+	rc.Tags = append(rc.Tags, "byte-range:absurd")
+	if a.effect != "whole" {
+		f := "byte-range:absurd-" + a.effect + "-" + what + ":" + a.spec[len("lit:"):]
+		if si > 0 {
+			f = "rendition:" + f
+		}
+		rc.Faults = append(rc.Faults, f)
+	}
+}
+
+// genAbsurdRangeRecipe: a content recipe as genRecipe makes them (valid or with deviations) that has no byte
+// ranges, plus one absurd range. These recipes are ADDED to a run (their own generator streams), so that the
+// recipes a seed produced before stay what they were.
+func genAbsurdRangeRecipe(r *rng.R) *Recipe {
+	for k := uint64(0); ; k++ {
+		f := r.Fork(k)
+		rc := genRecipe(f)
+		if rc.CloseAfterDataMS > 0 || (len(rc.Faults) > 0 && strings.HasPrefix(rc.Faults[0], "long-segment")) {
+			continue
+		}
+		ranged := false
+		for _, s := range rc.Streams {
+			ranged = ranged || s.MapRange != "" || s.Packed || len(s.Segments) == 0
+			for _, g := range s.Segments {
+				ranged = ranged || g.Range != ""
+			}
+		}
+		if ranged {
+			continue
+		}
+		absurdByteRanges(f.Fork(0xB17E5), rc)
+		if rc.Kind == "content" && len(rc.Faults) > 1 {
+			rc.Kind = "content-multi"
+		}
+		return rc
+	}
+}
+
+// absurdByteRanges: one absurd range in a recipe that has no byte ranges yet.
+func absurdByteRanges(r *rng.R, rc *Recipe) {
+	si := 0
+	if len(rc.Streams) > 1 && r.Bool(1, 4) {
+		si = 1 + r.Intn(len(rc.Streams)-1)
+	}
+	s := &rc.Streams[si]
+	seg := r.Intn(len(s.Segments))
+	if s.Container == "fmp4" && r.Bool(2, 5) {
+		seg = -1
+	}
+	setAbsurdRange(rc, si, seg, r.Intn(len(absurdRangeSpecs)))
+}
+
+// absurdRangeBoundaryRecipes: always run. Absurd byte ranges (2^62, 2^63-1, 2^63, 2^64-1, 0; offsets that make
+// offset + length wrap around 2^64): every one for an MPEG-TS segment, an fMP4 segment (first and second) and
+// the fMP4 init.
+func absurdRangeBoundaryRecipes() []*Recipe {
+	var out []*Recipe
+	for k := range absurdRangeSpecs {
+		rc := &Recipe{Kind: "content", CloseAt: -1, Streams: []StreamR{{Container: "mpegts", Tracks: []TrackR{{Codec: "h264"}},
+			Segments: []SegR{{Events: []TSEventR{{Track: 0, PTS: 1000, DTS: 1000}, {Track: 0, PTS: 1090, DTS: 1090}}}}}}}
+		setAbsurdRange(rc, 0, 0, k)
+		out = append(out, rc)
+		two := func() *Recipe {
+			return &Recipe{Kind: "content", CloseAt: -1, Streams: []StreamR{{Container: "fmp4",
+				Tracks: []TrackR{{ID: 1, TimeScale: 90000, Codec: "h264"}},
+				Segments: []SegR{{Parts: []PartR{{Tracks: []PartTrackR{{ID: 1, Samples: []SampleR{{Dur: 900}, {Dur: 900}}}}}}},
+					{Parts: []PartR{{Tracks: []PartTrackR{{ID: 1, BaseTime: 1800, Samples: []SampleR{{Dur: 900}}}}}}}}}}}
+		}
+		for _, seg := range []int{-1, 0, 1} {
+			rc := two()
+			setAbsurdRange(rc, 0, seg, k)
+			out = append(out, rc)
+		}
+	}
+	return out
+}
+
 // longTSRecipe: one H264 MPEG-TS track, one segment of n access units (n > 100: the stream processor
 // demuxes the whole segment at once and blocks in the track processor's push when the sample queue of 100
 // is full). jump: the time stamps jump 20 s forward after the first unit - "difference between DTS and RTC
